@@ -312,6 +312,15 @@ func alphaTerm(a *[256]bool, c Term) Term {
 	return or(rs...)
 }
 
+func alphaSubset(a *[256]bool, allowed string) bool {
+	for i := 0; i < 256; i++ {
+		if a[i] && !strings.ContainsRune(allowed, rune(i)) {
+			return false
+		}
+	}
+	return true
+}
+
 func alphaIsDigits(a *[256]bool) bool {
 	for i := 0; i < 256; i++ {
 		if a[i] != (i >= '0' && i <= '9') {
@@ -486,6 +495,10 @@ func (g *Gen) rxFindAxioms(re, rs string, ri *rxInfo) {
 			continue
 		}
 		g.declare(fmt.Sprintf("(assert (forall ((s Str) (i Int)) (! (=> (and (not (nil_L_Str %s)) (<= 0 i) (< i (str_len %s))) %s) :pattern ((str_at %s i)))))", m, el(k), alphaTerm(gr.alpha, "(str_at "+el(k)+" i)"), el(k)))
+		if alphaSubset(gr.alpha, "0123456789.") && !alphaIsDigits(gr.alpha) {
+			g.libDep("digdots")
+			g.declare(fmt.Sprintf("(assert (forall ((s Str)) (! (=> (not (nil_L_Str %s)) (L_digdots %s)) :pattern (%s))))", m, el(k), m))
+		}
 		if alphaIsDigits(gr.alpha) {
 			g.libDep("isdigits")
 			g.declare(fmt.Sprintf("(assert (forall ((s Str)) (! (=> (and (not (nil_L_Str %s)) (> (str_len %s) 0)) (L_isdigits %s)) :pattern (%s))))", m, el(k), el(k), m))
